@@ -28,10 +28,15 @@ EXTENDS Integers, Sequences, FiniteSets, TLC
 VARIABLES dir,    \* function: existing directory entry (name) -> inode
           data,   \* function: inode -> sequence of readable records
           dur,    \* function: inode -> length of the prefix of data covered by the last fsync
+          tail,   \* function: inode -> "clean" | "open" | "torn": what follows the readable records in the file.
+                  \*   "open": an unterminated gzip member (header / partial deflate data) written by the running
+                  \*   process, which can still terminate it; "torn": such a member left behind by a process that is
+                  \*   gone.  A reader (gzip -dc, compress/gzip) stops with an error at a torn member: NOTHING written
+                  \*   after it is readable, however complete.
           fin,    \* set of messages acknowledged to nsqd
           epoch   \* number of power losses so far (a power-loss step is the only one allowed to shorten files)
 
-avars == <<dir, data, dur, fin, epoch>>
+avars == <<dir, data, dur, tail, fin, epoch>>
 
 Range(s)       == {s[k] : k \in DOMAIN s}
 IsPrefix(s, t) == Len(s) <= Len(t) /\ \A k \in 1..Len(s) : s[k] = t[k]
@@ -46,6 +51,7 @@ AInit(pre, sz) ==
   /\ dir  = [n \in pre |-> CHOOSE k \in 1..Cardinality(pre) : ps[k] = n]
   /\ data = [i \in 1..Cardinality(pre) |-> [k \in 1..sz |-> 0 - i]]
   /\ dur  = [i \in 1..Cardinality(pre) |-> sz]
+  /\ tail = [i \in 1..Cardinality(pre) |-> "clean"]
   /\ fin = {} /\ epoch = 0
 
 ----------------------------------------------------------------------------
@@ -57,29 +63,41 @@ FsCreate(n) == /\ n \notin DOMAIN dir
                   /\ dir'  = dir  @@ (n :> i)
                   /\ data' = data @@ (i :> <<>>)
                   /\ dur'  = dur  @@ (i :> 0)
+                  /\ tail' = tail @@ (i :> "clean")
                /\ UNCHANGED <<fin, epoch>>
 
-\* write(2) at the end of the file that makes `recs` readable (newline written / gzip member closed)
+\* write(2) at the end of the file that completes `recs` (newline written / gzip member terminated).  They are
+\* readable -- unless the file already ends in a torn member: then they are in the file and no reader gets to them.
 FsAppend(i, recs) == /\ i \in DOMAIN data
-                     /\ data' = [data EXCEPT ![i] = @ \o recs]
+                     /\ data' = [data EXCEPT ![i] = IF tail[i] = "torn" THEN @ ELSE @ \o recs]
+                     /\ tail' = [tail EXCEPT ![i] = IF @ = "torn" THEN "torn" ELSE "clean"]
                      /\ UNCHANGED <<dir, dur, fin, epoch>>
+
+\* write(2) of the first bytes of a gzip member (gzip.Writer emits the 10-byte header on the first Write)
+FsOpenMember(i) == /\ i \in DOMAIN data
+                   /\ tail' = [tail EXCEPT ![i] = IF @ = "torn" THEN "torn" ELSE "open"]
+                   /\ UNCHANGED <<dir, data, dur, fin, epoch>>
+
+\* the writing process is gone (exit, SIGKILL): members it left open will never be terminated
+Torn == [i \in DOMAIN tail |-> IF tail[i] = "open" THEN "torn" ELSE tail[i]]
+ProcessDeath == tail' = Torn /\ UNCHANGED <<dir, data, dur, fin, epoch>>
 
 FsFsync(i) == /\ i \in DOMAIN data
               /\ dur' = [dur EXCEPT ![i] = Len(data[i])]
-              /\ UNCHANGED <<dir, data, fin, epoch>>
+              /\ UNCHANGED <<dir, data, tail, fin, epoch>>
 
 \* link(2): fails with EEXIST when d exists, so it is only a step when d is free
 FsLink(s, d) == /\ s \in DOMAIN dir /\ d \notin DOMAIN dir
                 /\ dir' = dir @@ (d :> dir[s])
-                /\ UNCHANGED <<data, dur, fin, epoch>>
+                /\ UNCHANGED <<data, dur, tail, fin, epoch>>
 
 FsUnlink(n) == /\ n \in DOMAIN dir
                /\ dir' = [m \in DOMAIN dir \ {n} |-> dir[m]]
-               /\ UNCHANGED <<data, dur, fin, epoch>>
+               /\ UNCHANGED <<data, dur, tail, fin, epoch>>
 
 \* "FIN <id>" leaves for nsqd
 Fin(m) == /\ fin' = fin \cup {m}
-          /\ UNCHANGED <<dir, data, dur, epoch>>
+          /\ UNCHANGED <<dir, data, dur, tail, epoch>>
 
 (* operations that exist in the world and that the property forbids or restricts: *)
 (* they are here so that an execution which uses them is a behaviour that the     *)
@@ -89,12 +107,12 @@ Fin(m) == /\ fin' = fin \cup {m}
 FsRewrite(i, k, recs) == /\ i \in DOMAIN data /\ k \in 0..Len(data[i])
                          /\ data' = [data EXCEPT ![i] = SubSeq(@, 1, k) \o recs]
                          /\ dur'  = [dur EXCEPT ![i] = IF @ > k THEN k ELSE @]
-                         /\ UNCHANGED <<dir, fin, epoch>>
+                         /\ UNCHANGED <<dir, tail, fin, epoch>>
 
 \* rename(2): replaces d when it exists
 FsRename(s, d) == /\ s \in DOMAIN dir /\ s # d
                   /\ dir' = [m \in (DOMAIN dir \ {s}) \cup {d} |-> IF m = d THEN dir[s] ELSE dir[m]]
-                  /\ UNCHANGED <<data, dur, fin, epoch>>
+                  /\ UNCHANGED <<data, dur, tail, fin, epoch>>
 
 (* power loss: every file keeps some length between what was fsynced and what was   *)
 (* written (record granularity: a torn record / torn gzip member is not readable)   *)
@@ -103,6 +121,7 @@ PowerLoss == /\ \E cut \in [DOMAIN data -> 0..MaxLen] :
                   /\ \A i \in DOMAIN data : cut[i] >= dur[i] /\ cut[i] <= Len(data[i])
                   /\ data' = [i \in DOMAIN data |-> SubSeq(data[i], 1, cut[i])]
                   /\ dur'  = cut
+             /\ tail' = Torn
              /\ epoch' = epoch + 1
              /\ UNCHANGED <<dir, fin>>
 
